@@ -474,8 +474,34 @@ def preserve(ctx, rn, fam):
                '%s.%s is built from the raw `%s` attribute: %s' % (adt.rsplit('::', 1)[1], fld, src, found.get((adt, fld), False)))
 
 
+def table_fields(b):
+    """{field name} of the boolean per-node tables held by a state struct that is a parameter of b (`&mut self`)"""
+    import re
+    out = set()
+    for i in range(1, b.nargs + 1):
+        ty = re.sub(r"^(&('[a-z_]+ )?(mut )?)+", '', b.local_ty(i) or '')
+        ty = re.sub(r'<.*$', '', ty)
+        a = b.facts.adts.get(ty)
+        if a and len(a.get('variants', [])) == 1:
+            for fl in a['variants'][0]['fields']:
+                if is_bool_table(fl.get('ty') or ''):
+                    out.add(fl['name'])
+    return out
+
+
+def table_ids(b, o, tf=None):
+    """identities of the boolean per-node tables an origin reaches: a parameter index (tables passed down as
+    parameters) or 'field:<name>' (tables held by the search's state struct)"""
+    tf = table_fields(b) if tf is None else tf
+    ids = [a[1] for a in o.atoms if a[0] == 'param' and is_bool_table(b.local_ty(a[1]))]
+    ids += ['field:' + x for x in sorted(o.fields & tf)]
+    return ids
+
+
 def bool_table_writes(b):
-    """[(bb, table param index, value)] for `table[idx] = true/false` statements (tables are &mut Vec<bool> parameters)"""
+    """[(bb, table id, value)] for `table[idx] = true/false` statements (tables are &mut Vec<bool> parameters, or
+    Vec<bool> fields of a state struct parameter)"""
+    tf = table_fields(b)
     out = []
     for bb in sorted(b.live_blocks()):
         if b.is_cleanup(bb):
@@ -483,7 +509,7 @@ def bool_table_writes(b):
         for s in b.stmts(bb):
             if 'assign' in s and s['assign'].get('p') and s['rv']['k'] == 'use' and const_int(s['rv']['op']) in (0, 1):
                 o = origin(b, s['assign'])
-                ps = [a[1] for a in o.atoms if a[0] == 'param' and is_bool_table(b.local_ty(a[1]))]
+                ps = table_ids(b, o, tf)
                 if len(ps) == 1 and 'index' in o.flags:
                     out.append((bb, ps[0], const_int(s['rv']['op'])))
     return out
@@ -501,7 +527,7 @@ def cyclecheck(ctx):
     ctx.touched(inner, len(inner.calls())); ctx.touched(outer, len(outer.calls()))
     pt = positional_truncations(inner) + positional_truncations(outer)
     ctx.ob('CYCLECHECK', 'visits-whole-collections', not pt, short_loc(inner.span), 'positional selections (take / skip / nth / first / sub-range) in the cycle search: %s' % (sorted({x[2] for x in pt}) or 'none'))
-    tables = [i for i in range(1, inner.nargs + 1) if is_bool_table(inner.local_ty(i))]
+    tables = [i for i in range(1, inner.nargs + 1) if is_bool_table(inner.local_ty(i))] + ['field:' + x for x in sorted(table_fields(inner))]
     ctx.ob('CYCLECHECK', 'two-tables', len(tables) == 2, short_loc(inner.span), 'boolean per-node tables passed down the search: %d (on-stack and done)' % len(tables))
     w = bool_table_writes(inner)
     rec = [(bb, t) for bb, t in inner.calls() if (t.get('resolved') or t.get('callee')) == inner.id]
@@ -514,7 +540,7 @@ def cyclecheck(ctx):
         for d, si, taken in dominating_switches(inner, bb):
             if si.get('kind') != 'enum':
                 so = origin(inner, si['op'])
-                ps = [a[1] for a in so.atoms if a[0] == 'param' and is_bool_table(inner.local_ty(a[1]))]
+                ps = table_ids(inner, so)
                 if len(ps) == 1 and 'index' in so.flags and taken == ('val', (0,)) and ps[0] in entry_sets:
                     onstack = ps[0]
                     # the other edge (already on the stack) errs
@@ -546,7 +572,8 @@ def cyclecheck(ctx):
     # recursion only into records, with the same tables and the child's index
     okr = bool(rec)
     for bb, t in rec:
-        io = origin(inner, t['args'][1])
+        ia = [a for a, ty in zip(t['args'], t.get('arg_tys', [])) if ty == 'usize'] or t['args'][1:2]
+        io = origin(inner, ia[0])
         okr = okr and 'type_' in io.fields and 'idx' in io.fields and not io.has_arith()
         okr = okr and any('Record' in names for names, adt, oo, d_, oth in option_guards(inner, bb))
     ctx.ob('CYCLECHECK', 'recurse-into-record-fields', okr, short_loc(inner.span), 'recursion follows record -> record field edges with the field\'s key: %s' % okr)
@@ -554,9 +581,13 @@ def cyclecheck(ctx):
     oc = [(bb, t) for bb, t in outer.calls() if (t.get('resolved') or t.get('callee')) == inner.id]
     ok = len(oc) == 1 and try_edges(outer, oc[0][0]) is not None
     if ok:
-        io = origin(outer, oc[0][1]['args'][1])
+        oargs, otys = oc[0][1]['args'], oc[0][1].get('arg_tys', [])
+        ia = [a for a, ty in zip(oargs, otys) if ty == 'usize'] or oargs[1:2]
+        io = origin(outer, ia[0])
         ok = 'enumerate' in io.flags or any((c.get('callee') or '').endswith('Iterator::next') for c in io.calls)
-        fresh = all(any('from_elem' in n_ or 'vec' in n_.lower() for n_ in deep_call_names(outer, a)) for a in oc[0][1]['args'][2:4])
+        # the tables handed to the search (as parameters, or inside its state struct) are allocated here
+        ta = [a for a, ty in zip(oargs, otys) if is_bool_table(ty)] or oargs[:1]
+        fresh = bool(ta) and all(any('from_elem' in n_ or 'vec' in n_.lower() for n_ in deep_call_names(outer, a, 5)) for a in ta)
         ok = ok and fresh
     ctx.ob('CYCLECHECK', 'outer-visits-every-record', ok, short_loc(outer.span), 'check_for_cycles starts a search (with `?`) from the records enumerated over all nodes, with freshly allocated tables: %s' % ok)
 
